@@ -36,6 +36,15 @@ if TYPE_CHECKING:
         from typing_extensions import Self
 
 
+def _named_only(table: Table) -> Table:
+    # CREATE TABLE, DROP TABLE and SELECT .. INTO name a table: there is no place for a correlation name (alias) there
+    if table.alias is None:
+        return table
+    table = copy(table)
+    table.alias = None
+    return table
+
+
 def _both(left: Term, right: Term) -> Term:
     # a condition need not be a Criterion (CASE, a parameter, a literal ...) and a plain Term has no "&" of its own
     return Criterion.__and__(left, right)  # type:ignore[arg-type]
@@ -1903,7 +1912,7 @@ class QueryBuilder(Selectable, Term):  # type:ignore[misc]
     def _into_sql(self, ctx: SqlContext) -> str:
         into_ctx = ctx.copy(with_alias=False)
         return " INTO {table}".format(
-            table=self._insert_table.get_sql(into_ctx),  # type:ignore[union-attr]
+            table=_named_only(self._insert_table).get_sql(into_ctx),  # type:ignore[arg-type]
         )
 
     def _from_sql(self, ctx: SqlContext) -> str:
@@ -2494,7 +2503,7 @@ class CreateQueryBuilder:
         return "CREATE {table_type}TABLE {if_not_exists}{table}".format(
             table_type=table_type,
             if_not_exists=if_not_exists,
-            table=self._create_table.get_sql(ctx),  # type: ignore
+            table=_named_only(self._create_table).get_sql(ctx),  # type: ignore
         )
 
     def _table_options_sql(self, ctx: SqlContext) -> str:
@@ -2587,7 +2596,7 @@ class DropQueryBuilder:
         drop_table = cast(Table, self._drop_table)
         return "DROP TABLE {if_exists}{table}".format(
             if_exists=if_exists,
-            table=drop_table.get_sql(ctx),
+            table=_named_only(drop_table).get_sql(ctx),
         )
 
     def __str__(self) -> str:
